@@ -136,11 +136,22 @@ def rand_values(rng, dtype, count, nframes, d):
         return out, cls
     lo, hi = INT_RANGE[dtype]
     cls = rng.choice(['small', 'full', 'edge', 'mixed'])
+    if dtype in ('int64', 'uint64') and rng.random() < 0.3:
+        # the top of the 64 bit ranges (beyond 2^53 only multiples of 4096 are used: they are doubles, so printing through a
+        # float, which the writer does, loses nothing): counters, time stamps in nanoseconds, values at and above 2^63
+        cls = 'huge'
     out = []
     for f in range(nframes):
         row = []
         for _ in range(count):
             c = cls if cls != 'mixed' else rng.choice(['small', 'full', 'edge'])
+            if c == 'huge':
+                if dtype == 'uint64':
+                    v = 4096 * rng.choice([2 ** 51, 2 ** 52 - 1, 2 ** 52 - 2, rng.randrange(2 ** 50, 2 ** 52), rng.randrange(2 ** 51, 2 ** 52)])
+                else:
+                    v = rng.choice([-1, 1]) * 4096 * rng.choice([2 ** 51 - 1, 2 ** 50, rng.randrange(2 ** 49, 2 ** 51)])
+                row.append(v)
+                continue
             if c == 'small':
                 v = rng.randint(max(lo, -100), min(hi, 100))
             elif c == 'full':
